@@ -89,6 +89,11 @@ claim("C12", "exploration",
       "Premise of the property is enforced by the harness: every content change gets a new mtime on a 1 ms logical clock or a different length.",
       "proptest-generated histories; differential oracle against the uncached tool", "DESIGN.md 4 C12")
 
+claim("C09", "exploration",
+      "Generated trees (nesting 0-4, metacharacter / blank / bracket / non-ASCII / dot-prefixed names, ignore files from a restricted grammar, hard links, all kinds of symlinks incl. cycles and a sub-tree on another device) x --depth, --hidden, --no-ignore, -L, -S, --min/--max, --name/--path/--exclude as globs or regexes (absolute or relative to a working directory inside the tree), -i with case-flipped patterns, --one-fs, overlapping and repeated roots. `group --rf-over 0 -f json` lists every selected file; it must equal, as a set, the reference walk written from README/--help, in which pruning does not exist.",
+      "Domain restrictions where the documentation does not settle the behaviour: hidden root names, both ignore files in one directory, deeper negations, ignore files or --path/--exclude together with -L. One open known finding (non-ASCII literal prefix of an include pattern).",
+      "proptest generation; oracle = reference walk / selection model compared set-wise", "DESIGN.md 4 C09")
+
 NOT_YET = "check not built yet in this round (planned: see DESIGN.md section 4); not claimed until it exists"
 
 hooks_commits = subprocess.run(["git","-C","/repo","log","--format=%H %s"],capture_output=True,text=True).stdout.splitlines()
